@@ -177,6 +177,20 @@ CLAIMED = {
         "from run metadata written by the harness.",
    technique="execution of the superrun scenario matrix on real contexts + TLC-evaluated P-level (SuperrunObs.tla) on recorded chunks and annotations",
    design="4/C14"),
+ "C15": dict(
+   text="spec/MultiRun.tla models multi_run (at most 2*max_workers outstanding, any completion order, run-id-ordered result, "
+        "ignore_errors) and the shared plugin registry with CPython dict semantics at dict-operation granularity (iterators fail when "
+        "the size changed, missing keys raise); TLC explores all interleavings and checks NoCrash, RegistryRestored, ResultOK, "
+        "FailureHandling, Outstanding and termination - the protocol as found reaches a crashed worker, the repaired one does not. "
+        "Binding: the real get_array(list of runs, max_workers=k) runs under the deterministic scheduler with the registry and the "
+        "plugin cache replaced by dicts whose operations are yield points and multi_run's executor / wait replaced by "
+        "scheduler-aware ones, for seeded preemptive schedules; TLC judges each observation (MultiRunObs.tla: equal to sequential "
+        "loading in run-id order, failing run raises or is omitted, never another exception, no hang). OS-scheduled stress runs with "
+        "a microsecond switch interval are reported alongside.",
+   note="Trusted: CPython executes single dict operations atomically; preemption only between dict operations, submissions and future "
+        "waits. Schedules are sampled (seeded). The dict-operation traces are not yet validated against MultiRun.tla (observations are).",
+   technique="TLA+ model checking of the shared-registry protocol + scheduler-driven exploration of the real code judged by TLC",
+   design="4/C15"),
 }
 NOT_BUILT = "decision procedure (TLA+ module + binding) not built yet in this session; see DESIGN.md section 4 for the plan"
 
